@@ -21,13 +21,29 @@ import (
 func init() { register("C06", "exploration", runC06) }
 
 func runC06(run *common.Run) {
-	run.Rule = "Part 'atomic' (sequential, enumerated): for MutateRow, a MutateRows entry, both CheckAndMutateRow branches and ReadModifyWriteRow, every list of length 1-4 whose k-th element is invalid (each invalid kind), on an empty and on a populated row: the request/entry must fail, the whole table must be unchanged, other MutateRows entries applied exactly. Part 'lin' (concurrent): case = one history of 3-6 client goroutines x 6-10 operations (MutateRow writing one unique tag into two columns, MutateRows over both rows, CheckAndMutateRow 'if column==tag_i write tag_j' (half of the predicates also run strip_value over the row they test), ReadModifyWriteRow increment and append of unique tags, DeleteFromRow, whole-row reads) on 2 rows (every third history next to a schema-churn client that creates a scratch family, fills it in 250 other rows and in the rows under test, and drops it again, repeatedly), recorded at the gRPC client boundary with a logical clock, with bounded holds at the write RPCs' afterRead/beforeWrite yield points; checked per row with porcupine against a sequential row model plus conservation monitors (sum of acknowledged increments, each appended tag exactly once). Part 'admin': a single-row write (each of the four RPCs) meets an admin request (drop of a family it names or of another one, DropRowRange all / by prefix, GC-rule update) performed start to finish at the moment the write queues for the table lock: the write's answer and the final table must be explained by one of the two serial orders. Non-trivial = history in which at least two operations on one row overlapped in logical time; distinct by history hash."
+	run.Rule = "Part 'atomic' (sequential, enumerated): for MutateRow, a MutateRows entry, both CheckAndMutateRow branches and ReadModifyWriteRow, every list of length 1-4 whose k-th element is invalid (each invalid kind), on an empty and on a populated row: the request/entry must fail, the whole table must be unchanged, other MutateRows entries applied exactly. Part 'lin' (concurrent): case = one history of 3-6 client goroutines x 6-10 operations (MutateRow writing one unique tag into two columns, MutateRows over both rows, CheckAndMutateRow 'if column==tag_i write tag_j' (half of the predicates also run strip_value over the row they test), ReadModifyWriteRow increment and append of unique tags, DeleteFromRow, whole-row reads) on 2 rows (every third history next to a schema-churn client that creates a scratch family, fills it in 250 other rows and in the rows under test, and drops it again, repeatedly), recorded at the gRPC client boundary with a logical clock, with bounded holds at the write RPCs' afterRead/beforeWrite yield points; checked per row with porcupine against a sequential row model plus conservation monitors (sum of acknowledged increments, each appended tag exactly once). Part 'round': multi-message scans on the btree engine under concurrent multi-column row writes, deletes and appends (the rounds of C18): every returned row is one of the states the row had during the scan, never half of a request. Part 'admin': a single-row write (each of the four RPCs) meets an admin request (drop of a family it names or of another one, DropRowRange all / by prefix, GC-rule update) performed start to finish at the moment the write queues for the table lock: the write's answer and the final table must be explained by one of the two serial orders. Non-trivial = history in which at least two operations on one row overlapped in logical time; distinct by history hash."
 	run.Assumptions = []string{"porcupine v1.3.0 linearizability checker (per-row partitioning)", "sequential row model of ~60 lines", "holds are bounded sleeps inside the hooked points; they only widen interleavings and are never a verdict"}
 	if run.WantSub("atomic") {
 		c06Atomic(run)
 	}
 	if run.WantSub("lin") {
 		c06Lin(run)
+	}
+	if run.WantSub("round") && !run.TooMany() {
+		// readers never observe half of a multi-mutation request - also not a multi-message scan on the btree engine
+		// (its scans iterate a copy-on-write snapshot): the scan-under-writes rounds of C18, run on btree
+		var seq uint64
+		bttest.VerifSetHandler(func(point string, key []byte) {
+			if point == "ReadRows.unlocked" && atomic.AddUint64(&seq, 1)%2 == 0 {
+				time.Sleep(2 * time.Millisecond)
+			}
+		})
+		for round := 0; round < run.N(2, 30) && !run.TooMany(); round++ {
+			if run.Want("round", round) {
+				c18Round(run, round, "btree", run.N(8, 20))
+			}
+		}
+		bttest.VerifSetHandler(nil)
 	}
 	if run.WantSub("admin") && !run.TooMany() {
 		runWriteVsAdmin(run, "admin", []string{"MutateRow", "MutateRows", "CAM", "RMW"}, run.N(180, 3000))
